@@ -9,6 +9,7 @@ package keccakf1600
 
 import (
 	"fmt"
+	"os"
 	"testing"
 
 	"github.com/cloudflare/circl/internal/sha3"
@@ -72,6 +73,9 @@ func c15LaneCases(L int) []c15LaneCase {
 }
 
 func TestVerifC15_lanes(t *testing.T) {
+	if os.Getenv("VERIF_CONFIG") == "appengine" {
+		t.Skip("appengine only switches the sponge's xor back-end; the permutations are unaffected")
+	}
 	r := verifmc.Start(t, "C15", "lanes")
 	defer r.Finish()
 	if err := keccak.SelfTest(); err != nil {
